@@ -267,4 +267,17 @@ REG = {
          "2000 (termination on the fractional spread of the vertex values), which are listed one by one in the known finding, so any other failing case is reported. Shrink steps are not "
          "exercised by the exact model. Brent/bracketing are not modelled step by step.",
     technique="exact-rational TLA+ transcription of Nelder-Mead (TLC exhaustive on a lattice of quadratics and simplices), per-run replay with exact comparison of evaluation sequences, trace validation of recorded minimisations"),
+ "C15": dict(
+    engine="spec/Eigen.tla, MC_Eigen.tla, Trace_Eigen.tla, LinAlg.tla; harness/c15.cpp",
+    design_ref="DESIGN.md §4.15",
+    text="Eigen.tla assembles symmetric integer matrices from 1x1 and [[a,b],[b,a]] blocks with a planted even-integer spectrum and conjugates them with a permutation, so that "
+         "eigenvectors have zero components in scattered positions; TLC checks exactly, for every block pattern of sizes 1..7, pool offset and permutation, that every planted pair "
+         "satisfies M v = lambda v, the spectrum sums to the trace, is separated in magnitude and the vectors are orthogonal, and exports the matrices with their eigen-structure. Each "
+         "matrix is run through Eigenvalues and Eigensystem in its own process with a time limit; Trace_Eigen accepts only if both return, the spectrum equals the planted one, there are "
+         "n unit vectors with M v = lambda v and each is parallel to the planted eigenvector. The same acceptance (without planted vectors) is applied to random symmetric matrices "
+         "Q diag(lambda) Q^T with ratios 0.1..0.8 of either sign, and QR_Decomposition is checked on random non-singular matrices of sizes 1..7 with condition numbers up to 1e6 "
+         "(Q orthogonal, R upper triangular exactly, QR = M).",
+    note="Spectrum within 1e-10 ||M||, residuals within 1e-9 ||M||: these reflect the library's own iteration thresholds rather than rounding. The Jacobi reference of the statement is "
+         "replaced by planted spectra (the truth is an input). Determinant = product of eigenvalues is covered through the planted spectrum only.",
+    technique="exact integer TLA+ model of symmetric matrices with planted eigen-structure (TLC exhaustive over block patterns and permutations), replay through Eigenvalues/Eigensystem in child processes with time limits, trace validation of residuals and termination"),
 }
